@@ -192,7 +192,8 @@ def match_selectors_table(ctx, rule):
             alts = [Obj(_cls='css_types.SelectorNull', _name='Null')] + alts
         lst = Obj(_cls='css_types.SelectorList', _name='list', selectors=tuple(alts), is_not=is_not, is_html=False,
                   __iter__=alts, __len__=len(alts))
-        selfo = Obj(_cls='css_match.CSSMatch', _name='self', namespaces={}, iframe_restrict=False, is_html=True, is_xml=False)
+        selfo = Obj(_cls='css_match.CSSMatch', _name='self', namespaces={}, iframe_restrict=False, is_html=True, is_xml=False,
+                    scope=None, root=None, tag=None, has_html_namespace=False)
         try:
             r = call_function(ctx, 'css_match.CSSMatch.match_selectors', [Obj(_name='el'), lst], {}, stubs, selfo)
         except Unsupported as e:
@@ -240,7 +241,8 @@ def match_selectors_table(ctx, rule):
     stubs['self.match_tag'] = first_fails
     alts = [full_selector(), full_selector()]
     lst = Obj(_cls='css_types.SelectorList', _name='list', selectors=tuple(alts), is_not=False, is_html=False, __iter__=alts, __len__=2)
-    selfo = Obj(_cls='css_match.CSSMatch', _name='self', namespaces={}, iframe_restrict=False, is_html=True, is_xml=False)
+    selfo = Obj(_cls='css_match.CSSMatch', _name='self', namespaces={}, iframe_restrict=False, is_html=True, is_xml=False,
+                    scope=None, root=None, tag=None, has_html_namespace=False)
     try:
         r = bool(call_function(ctx, 'css_match.CSSMatch.match_selectors', [Obj(_name='el'), lst], {}, stubs, selfo))
     except Unsupported as e:
@@ -353,7 +355,8 @@ def helper_tables(ctx, rule):
 def wrappers_table(ctx, rule):
     imod = ctx.src.mod('__init__')
     names = {'select': True, 'select_one': False, 'iselect': True, 'match': False, 'filter': False, 'closest': False}
-    for name, has_limit in names.items():
+    compiled_in = Obj(_cls='css_match.SoupSieve', _name='COMPILED-PATTERN', direct=True)
+    for (name, has_limit), pattern_arg in itertools.product(names.items(), ('PATTERN', compiled_in)):
         if name not in imod.functions:
             raise AnalysisError(f'soupsieve.{name} not found')
         fn = imod.functions[name]
@@ -370,7 +373,10 @@ def wrappers_table(ctx, rule):
                     return [Obj(_name='RESULT')] if mname in ('select', 'iselect', 'filter') else Obj(_name='RESULT')
                 return call
             return Obj(_name='compiled', **{m: meth(m) for m in names})
-        env_args = {'select': 'PATTERN', 'tag': target, 'iterable': target, 'namespaces': {'ns': 'u'}, 'limit': 7, 'flags': 3,
+        for m_ in names:
+            # a compiled selector handed in directly must still go through compile() (which validates the extra arguments)
+            compiled_in.set(m_, (lambda *a_, _m=m_, _r=rec, **k_: _r.setdefault('bypass', _m)))
+        env_args = {'select': pattern_arg, 'tag': target, 'iterable': target, 'namespaces': {'ns': 'u'}, 'limit': 7, 'flags': 3,
                     'custom': {':--x': 'y'}}
         args = [env_args[p] for p in [a.arg for a in fn.args.args]]
         kwargs = {'custom': env_args['custom'], 'extra_kw': 'EXTRA'}
@@ -393,13 +399,16 @@ def wrappers_table(ctx, rule):
         except Unsupported as e:
             raise AnalysisError(f'soupsieve.{name}: outside the evaluable fragment: {e}')
         problems = []
+        if 'bypass' in rec:
+            problems.append(f'calls .{rec["bypass"]}() on the pattern argument itself, without compile(): namespaces, flags and custom '
+                            f'are silently ignored for a compiled selector instead of being rejected with ValueError')
         if 'compile_args' not in rec:
             problems.append('never calls compile()')
         else:
             ca, ck = list(rec['compile_args']), dict(rec['compile_kwargs'])
             slots = dict(zip(['pattern', 'namespaces', 'flags'], ca))
             slots.update(ck)
-            want = {'pattern': 'PATTERN', 'namespaces': env_args['namespaces'], 'flags': 3, 'custom': env_args['custom'],
+            want = {'pattern': pattern_arg, 'namespaces': env_args['namespaces'], 'flags': 3, 'custom': env_args['custom'],
                     'extra_kw': 'EXTRA'}
             for k, v in want.items():
                 if slots.get(k, '<missing>') is not v and slots.get(k, '<missing>') != v:
@@ -414,10 +423,12 @@ def wrappers_table(ctx, rule):
                 exp_m = [target] + ([7] if has_limit else [])
                 if len(margs) != len(exp_m) or any(x is not y and x != y for x, y in zip(margs, exp_m)):
                     problems.append(f'.{mname}() receives {margs!r} instead of {exp_m!r}')
-        rule.instance({'wrapper': name, 'parameters': params, 'problems': problems}, key=name)
+        rule.instance({'wrapper': name, 'pattern_argument': 'str' if pattern_arg == 'PATTERN' else 'compiled selector', 'parameters': params,
+                       'problems': problems}, key=f'{name}|{pattern_arg == "PATTERN"}')
         rule.obligation(not problems)
         for p in problems:
-            rule.violation(f'__init__.{name} {p[:60]}', imod.where(fn), f'soupsieve.{name}(): {p}')
+            rule.violation(f'__init__.{name} {p[:60]}', imod.where(fn),
+                           f'soupsieve.{name}({"<pattern text>" if pattern_arg == "PATTERN" else "<compiled selector>"}, ...): {p}')
 
 
 def compile_table(ctx, rule_key, rule_pass):
@@ -488,6 +499,42 @@ def compile_table(ctx, rule_key, rule_pass):
 
 
 # ---- attribute selector patterns ------------------------------------------------------------------------------------------
+def ref_css_unescape(content, string=False):
+    """CSS Syntax 3 escape decoding (the reference the decoder regexes are proved equal to, C09-R6 / C10-R3)."""
+    out, i, n = [], 0, len(content)
+    hexd = '0123456789abcdefABCDEF'
+    while i < n:
+        c = content[i]
+        if c != '\\':
+            out.append(c)
+            i += 1
+            continue
+        if i + 1 >= n:
+            out.append('\ufffd')
+            i += 1
+        elif content[i + 1] in hexd:
+            j = i + 1
+            while j < n and j < i + 7 and content[j] in hexd:
+                j += 1
+            cp = int(content[i + 1:j], 16)
+            if content[j:j + 2] == '\r\n':
+                j += 2
+            elif j < n and content[j] in ' \t\n\r\f':
+                j += 1
+            out.append('\ufffd' if cp == 0 or cp > 0x10FFFF else chr(cp))
+            i = j
+        elif content[i + 1] in '\n\r\f':
+            if string:
+                i += 3 if content[i + 1:i + 3] == '\r\n' else 2
+            else:
+                out.append(c)
+                i += 1
+        else:
+            out.append(content[i + 1])
+            i += 2
+    return ''.join(out)
+
+
 def attribute_patterns(ctx):
     """Interpret parse_attribute_selector for every operator x case flag x attribute kind x value; returns rows with the
     template(s) handed to re.compile: {op, case, attr, value, pattern, flags, twin_pattern, twin_flags, inverse}."""
@@ -496,20 +543,24 @@ def attribute_patterns(ctx):
     for op in (None, '=', '!=', '^=', '$=', '*=', '~=', '|='):
         for case in (None, 'i', 's', 'I', 'S'):
             for attr in ('href', 'type', 'TYPE'):
-                for value in ('', 'ab', 'a b'):
+                for value, raw in (('', None), ('ab', None), ('a b', None), ('', '"\\\n"'), ('', "'\\\r\n\\\f'"), ('ab', '"\\61 b"'),
+                                   ('ab', '\\61 b')):
                     if op is None and (case or value):
                         continue
+                    if raw is not None and (case or attr != 'href'):
+                        continue        # the spelling of the value is independent of flags and attribute kind
                     compiled = []
 
                     def rc(pat, flags=0, _c=compiled):
                         o = Obj(_name='re', pattern=pat, flags=flags, __isa__=('re.Pattern',))
                         _c.append(o)
                         return o
-                    m = match_obj({'cmp': op, 'case': case, 'attr_ns': None, 'attr_name': attr,
-                                   'value': (value if value and ' ' not in value else f'"{value}"') if op else None})
+                    token = raw if raw is not None else (value if value and ' ' not in value else f'"{value}"')
+                    m = match_obj({'cmp': op, 'case': case, 'attr_ns': None, 'attr_name': attr, 'value': token if op else None})
                     sel = fresh_sel()
                     ws_hit = lambda v: Obj(_name='m') if any(c in v for c in ' \t\r\n\f') else None    # noqa: E731
-                    stubs = {'re.compile': rc, 'RE_WS.search': ws_hit, 'css_parser._Selector': lambda **kw: fresh_sel()}
+                    stubs = {'re.compile': rc, 'RE_WS.search': ws_hit, 'css_parser._Selector': lambda **kw: fresh_sel(),
+                             'css_parser.css_unescape': ref_css_unescape, 'css_unescape': ref_css_unescape}
                     try:
                         call_function(ctx, 'css_parser.CSSParser.parse_attribute_selector', [sel, m, False], {}, stubs, parser_obj())
                     except Unsupported as e:
@@ -526,7 +577,7 @@ def attribute_patterns(ctx):
                         raise AnalysisError('parse_attribute_selector: no SelectorAttribute produced')
                     a = attrs[0]
                     p, t = a.get('pattern'), a.get('xml_type_pattern')
-                    rows.append({'op': op, 'case': case, 'attr': attr, 'value': value,
+                    rows.append({'op': op, 'case': case, 'attr': attr, 'value': value, 'raw': raw,
                                  'pattern': None if p is None else p.get('pattern'), 'flags': None if p is None else int(p.get('flags')),
                                  'twin_pattern': None if t is None else t.get('pattern'),
                                  'twin_flags': None if t is None else int(t.get('flags')), 'inverse': inverse,
@@ -655,8 +706,8 @@ def same_type_table(ctx, rule):
     fnq = 'css_match.CSSMatch.match_nth_tag_type'
     mod, fn = ctx.src.func(fnq)
     first_bad = None
-    for is_xml in (False, True):
-        me = matcher_obj(is_xml=is_xml, is_html=not is_xml)
+    for is_xml in (False, True, 'xhtml'):
+        me = matcher_obj(is_xml=bool(is_xml), is_html=(not is_xml) or is_xml == 'xhtml', has_html_namespace=is_xml == 'xhtml')
         for a, b in itertools.product(('p', 'P', 'q'), ('p', 'P')):
             for ns_a, ns_b in (('n1', 'n1'), ('n1', 'n2'), (None, None), (None, 'n1')):
                 try:
@@ -1247,6 +1298,39 @@ def pretty_progress(ctx, rule):
 
 
 
+def lang_logic_table(ctx, rule):
+    """Several :lang() in one compound are a conjunction, the ranges of one :lang() a disjunction."""
+    from ..tables import matcher_obj
+    fnq = 'css_match.CSSMatch.match_lang'
+    mod, fn = ctx.src.func(fnq)
+    cases = [([['Y']], True), ([['N']], False), ([['N', 'Y']], True), ([['Y', 'N']], True), ([['Y'], ['N']], False), ([['N'], ['Y']], False),
+             ([['Y'], ['Y', 'N']], True), ([['Y', 'N'], ['N']], False), ([['Y'], ['Y'], ['N']], False), ([['N', 'N'], ['Y']], False),
+             ([['Y'], ['N', 'Y'], ['Y']], True)]
+    bad = None
+    for groups, exp in cases:
+        html, el = _lang_tree([], el_lang='xx')
+        me = matcher_obj(is_xml=False, is_html=True, root=html, cached_meta_lang=[], has_html_namespace=False)
+        stubs = {'css_match.CSSMatch.extended_language_filter': lambda pattern, found: pattern.startswith('Y'),
+                 'css_match.CSSMatch.supports_namespaces': lambda: False, 'util.lower': strict_lower}
+        langs = tuple(Obj(_name='SelectorLang', languages=tuple(g), __iter__=list(g), __len__=len(g)) for g in groups)
+        try:
+            got = bool(call_function(ctx, fnq, [el, langs], {}, stubs, me))
+        except Raised as e:
+            got = f'raises {e.exc_name}'
+        except Unsupported as e:
+            raise AnalysisError(f'match_lang: outside the evaluable fragment: {e}')
+        rule.instance({'lang_pseudo_classes': groups, 'matches': got, 'expected': exp}, key=f'langlogic|{groups}')
+        if got != exp and bad is None:
+            bad = (groups, got, exp)
+    rule.obligation(bad is None)
+    if bad is not None:
+        groups, got, exp = bad
+        rule.violation('css_match.CSSMatch.match_lang conjunction', mod.where(fn),
+                       f'match_lang for the compound {"".join(":lang(" + ", ".join(g) + ")" for g in groups)} (Y = a range that matches the '
+                       f"element's language, N = one that does not) gives {got}, expected {exp}: every :lang() of a compound must match, "
+                       f'each through at least one of its ranges')
+
+
 def lang_memo_table(ctx, rule):
     """Transparency of the per-matcher <meta> language memo: with ONE matcher, the language found for a sequence of
     elements (same document, then another document reached through the same matcher) equals what a fresh matcher finds."""
@@ -1714,3 +1798,195 @@ def select_limit_table(ctx, rule):
                        f'CSSMatch.select(limit={limit}) over descendants matching {list(vec)} yields '
                        f'{got if isinstance(got, str) else [repr(x) for x in got]}, expected {[repr(x) for x in exp]}: the first `limit` '
                        f'matches in document order (all of them for a limit below 1)')
+
+
+def real_matcher(ctx, scope, selectors=None, namespaces=None, flags=0, xhtml=False):
+    """A matcher object initialised by interpreting CSSMatch.__init__ itself on an abstract tree: every field the class defines
+    (memo tables included) exists, whatever a change adds to it."""
+    me = Obj(_cls='css_match.CSSMatch', _name='matcher')
+    sel = selectors if selectors is not None else Obj(_cls='css_types.SelectorList', _name='SELECTORS', selectors=(), is_not=False,
+                                                       is_html=False, __iter__=[], __len__=0)
+    try:
+        call_function(ctx, 'css_match.CSSMatch.__init__', [sel, scope, namespaces, flags], {}, {'util.lower': strict_lower}, me)
+    except Raised as e:
+        raise AnalysisError(f'CSSMatch.__init__ raises {e.exc_name} on a well-formed abstract tree')
+    except Unsupported as e:
+        raise AnalysisError(f'CSSMatch.__init__: outside the evaluable fragment: {e}')
+    return me
+
+
+def identity_table(ctx, rule):
+    """:scope and :root designate ONE node: an element that merely looks like the scope / root element (bs4 tags compare by
+    markup) is not it.  match_selectors is interpreted with a real matcher on a tree that contains look-alikes."""
+    inv = ctx.consts
+    fnq = 'css_match.CSSMatch.match_selectors'
+    mod, fn = ctx.src.func(fnq)
+    SEL_SCOPE = inv.folder.lookup('css_types', 'SEL_SCOPE')
+    SEL_ROOT = inv.folder.lookup('css_types', 'SEL_ROOT')
+    doc, order, L = build_tree([('ul', {'_label': 'root'}, [('li', {'_label': 'a', 'class': ['row']}, ['x']), ('li', {'_label': 'b', 'class': ['row']}, ['x']),
+                                                            ('ul', {'_label': 'inner'}, [('li', {'class': ['row']}, ['x']), ('li', {'class': ['row']}, ['x'])])])])
+
+    def sel(flags):
+        s_ = Obj(_cls='css_types.Selector', _name='Selector', tag=None, ids=(), classes=(), attributes=(), nth=(), selectors=(),
+                 relation=Obj(_name='rel', __len__=0, __iter__=[], __bool__=False), rel_type=None, contains=(), lang=(), flags=flags)
+        return Obj(_cls='css_types.SelectorList', _name='list', selectors=(s_,), is_not=False, is_html=False, __iter__=[s_], __len__=1)
+    bad = None
+    for what, flag, scope, cases in ((':scope', SEL_SCOPE, L['a'], ((L['a'], True), (L['b'], False), (L['root'], False))),
+                                     (':root', SEL_ROOT, L['a'], ((L['root'], True), (L['inner'], False), (L['a'], False)))):
+        me = real_matcher(ctx, scope)
+        for el, exp in cases:
+            try:
+                got = bool(call_function(ctx, fnq, [el, sel(flag)], {}, {'util.lower': strict_lower,
+                                                                       'css_match.CSSMatch.supports_namespaces': lambda: False}, me))
+            except Raised as e:
+                got = f'raises {e.exc_name}'
+            except Unsupported as e:
+                raise AnalysisError(f'match_selectors ({what}): outside the evaluable fragment: {e}')
+            rule.instance({'pseudo_class': what, 'element': repr(el), 'matches': got, 'expected': exp}, key=f'identity|{what}|{el!r}')
+            if got != exp and bad is None:
+                bad = (what, el, got, exp)
+    rule.obligation(bad is None)
+    if bad is not None:
+        what, el, got, exp = bad
+        rule.violation(f'css_match.CSSMatch.match_selectors {what} identity', mod.where(fn),
+                       f'{what} on {el!r} is {got}, expected {exp}, in a tree that contains structurally identical elements (repeated rows): '
+                       f'{what} designates one node - the comparison must be by identity, bs4 tags compare equal when their markup is equal')
+
+
+def trailing_whitespace_table(ctx, rule):
+    """selector_iter on `X` surrounded by each kind of CSS white space / comment: one token, nothing else.  The two trimming
+    regexes are replaced by their definitions ((white space | comment)* at the start / up to the end), which C09-R6 checks."""
+    import re as _re
+    fnq = 'css_parser.CSSParser.selector_iter'
+    mod, fn = ctx.src.func(fnq)
+    run_re = _re.compile(r'(?:[ \t\r\n\f]|/\*(?:[^*]|\*+[^*/])*\*+/)*')
+    begin = ctx.consts.by_name('css_parser.RE_WS_BEGIN')
+    end_ = ctx.consts.by_name('css_parser.RE_WS_END')
+    if begin is None or end_ is None:
+        raise AnalysisError('RE_WS_BEGIN / RE_WS_END not found (anchor vanished)')
+    pieces = [' ', '\t', '\n', '\r', '\f', '\r\n', '/**/', '/* c */', ' \f ', '\f/* c */\f']
+    bad = None
+    for w, where in itertools.product(pieces, ('after', 'before', 'both')):
+        text = {'after': 'X' + w, 'before': w + 'X', 'both': w + 'X' + w}[where]
+
+        def search(rx_obj, s_, pos=0, *a_):
+            if rx_obj.get('pattern') == begin.pattern:
+                m_ = run_re.match(s_, pos)
+                return match_obj({0: m_.group(0)}, start=pos, end=m_.end())
+            raise Unsupported('search on an unexpected regex')
+
+        def match(rx_obj, s_, pos=0, *a_):
+            if rx_obj.get('pattern') == end_.pattern:
+                m_ = run_re.match(s_, pos)
+                return match_obj({0: m_.group(0)}, start=pos, end=m_.end()) if m_.end() == len(s_) else None
+            if rx_obj.get('pattern') == begin.pattern:
+                m_ = run_re.match(s_, pos)
+                return match_obj({0: m_.group(0)}, start=pos, end=m_.end())
+            raise Unsupported('match on an unexpected regex')
+
+        def tok_match(selector, index, flags=0):
+            if selector[index:index + 1] == 'X':
+                return match_obj({0: 'X'}, name='X', start=index, end=index + 1)
+            return None
+        me = parser_obj(pattern=text)
+        me.set('css_tokens', (Obj(_name='tokenX', match=tok_match, get_name=lambda m=None: 'x', name='x'),))
+        try:
+            got = call_function(ctx, fnq, [text], {}, {'re.Pattern.search': search, 're.Pattern.match': match}, me)
+            got = [(k, v.get('start')(0)) for k, v in got]
+        except Raised as e:
+            got = f'raises {e.exc_name}'
+        except Unsupported as e:
+            raise AnalysisError(f'selector_iter: outside the evaluable fragment: {e}')
+        exp = [('x', text.index('X'))]
+        rule.instance({'pattern': text, 'tokens': got, 'expected': exp}, key=f'ws|{text!r}', sample_cap=3)
+        if got != exp and bad is None:
+            bad = (text, got, exp)
+    rule.obligation(bad is None)
+    if bad is not None:
+        text, got, exp = bad
+        rule.violation('css_parser.CSSParser.selector_iter white space', mod.where(fn),
+                       f'tokenising {text!r} (one token X surrounded by CSS white space / comments) gives {got}, expected {exp}: every '
+                       f'CSS white-space character (space, tab, LF, CR, FF) and comment is insignificant at either end of a pattern')
+
+
+def freeze_cost_table(ctx, rule):
+    """Work done by _Selector.freeze() on a combinator chain of n compounds, measured in evaluation steps of the partial
+    evaluator, for n = 4, 8, 12, 16: the growth must be polynomial (a chain frozen twice per level doubles with every level)."""
+    fnq = 'css_parser._Selector.freeze'
+    mod, fn = ctx.src.func(fnq)
+    costs = {}
+    for n in (4, 8, 12, 16):
+        head = None
+        for i in range(n):
+            s_ = fresh_sel()
+            s_.set('tag', Obj(_name=f'tag{i}'))
+            if head is not None:
+                s_.set('relations', [head])
+                s_.set('rel_type', ' ')
+            head = s_
+        stats = {}
+        try:
+            call_function(ctx, fnq, [], {}, {}, head, options={'stats': stats, 'max_depth': 80})
+        except Raised as e:
+            raise AnalysisError(f'_Selector.freeze raises {e.exc_name} on a plain chain')
+        except Unsupported as e:
+            if 'step budget' in str(e):
+                stats['steps'] = Interp.MAX_STEPS
+            else:
+                raise AnalysisError(f'_Selector.freeze: outside the evaluable fragment: {e}')
+        costs[n] = stats.get('steps', 0)
+    ratio = costs[16] / max(1, costs[8])
+    ok = ratio < 6 and costs[16] < Interp.MAX_STEPS
+    rule.instance({'function': '_Selector.freeze', 'chain_length -> evaluation_steps': costs, 'steps(16)/steps(8)': round(ratio, 2)},
+                  key='freeze-cost')
+    rule.obligation(ok)
+    if not ok:
+        rule.violation('css_parser._Selector.freeze cost', mod.where(fn),
+                       f'freezing a combinator chain of 4/8/12/16 compounds takes {costs} evaluation steps (x{ratio:.1f} from 8 to 16): the '
+                       f'work grows exponentially with the length of the chain (a sub-chain is frozen more than once per level), so a '
+                       f'selector like "a a a a ... a" with a few dozen compounds never finishes compiling')
+
+
+def default_button_table(ctx, rule):
+    """match_default with ONE matcher over several forms (two of them with identical markup) in several visiting orders: an
+    element is the default button iff it is the first <input>/<button> of type submit (any letter case) below its nearest
+    form - whatever was asked before."""
+    fnq = 'css_match.CSSMatch.match_default'
+    mod, fn = ctx.src.func(fnq)
+
+    def form(tag):
+        return ('form', {'_label': f'{tag}form'}, [('button', {'_label': f'{tag}0'}, ['plain']), ('input', {'type': 'text', '_label': f'{tag}t'}, []),
+                                                   ('input', {'type': 'submit', '_label': f'{tag}1'}, []),
+                                                   ('button', {'type': 'SUBMIT', '_label': f'{tag}2'}, ['go'])])
+    spec = [('html', {'_label': 'root'}, [('body', {}, [
+        form('a'), form('b'),
+        ('form', {'_label': 'cform'}, [('div', {}, [('button', {'type': 'Submit', '_label': 'c1'}, [])]), ('input', {'type': 'submit', '_label': 'c2'}, [])]),
+        ('button', {'type': 'submit', '_label': 'x'}, [])])])]
+    doc, order, L = build_tree(spec)
+    expected = {'a0': False, 'at': False, 'a1': True, 'a2': False, 'b0': False, 'b1': True, 'b2': False, 'c1': True, 'c2': False, 'x': False}
+    orders = [('a1', 'a2', 'b1', 'b2', 'c1', 'c2', 'x'), ('b2', 'b1', 'a2', 'a1', 'a0'), ('a0', 'b0', 'a1', 'b1'), ('c2', 'c1', 'x', 'at'),
+              ('b1', 'a1'), ('a2', 'b1', 'a1')]
+    bad = None
+    for order_ in orders:
+        me = real_matcher(ctx, L['root'])
+        got = []
+        for lab in order_:
+            try:
+                got.append(bool(call_function(ctx, fnq, [L[lab]], {}, {'util.lower': strict_lower,
+                                                                     'css_match.CSSMatch.supports_namespaces': lambda: False}, me)))
+            except Raised as e:
+                got.append(f'raises {e.exc_name}')
+            except Unsupported as e:
+                raise AnalysisError(f'match_default: outside the evaluable fragment: {e}')
+        exp = [expected[lab] for lab in order_]
+        rule.instance({'visited': list(order_), 'default_button': got, 'expected': exp}, key=f'default|{order_}', sample_cap=3)
+        if got != exp and bad is None:
+            bad = (order_, got, exp)
+    rule.obligation(bad is None)
+    if bad is not None:
+        order_, got, exp = bad
+        rule.violation('css_match.CSSMatch.match_default table', mod.where(fn),
+                       f'match_default with one matcher, visiting {list(order_)} (forms a and b have identical markup: '
+                       f'<button>, <input type=text>, <input type=submit>, <button type=SUBMIT>; form c nests its first submit button in a '
+                       f'<div>; x is outside any form): got {got}, expected {exp}. The default button of a form is its first input/button '
+                       f'whose type is submit; the per-form memo must be keyed by the form object itself (bs4 tags compare by markup)')
